@@ -39,8 +39,12 @@ Definition update_start (mode : umode) (existing : option baseline) : baseline :
    repair of D9) *)
 Definition violating (r : result) : bool := is_failed r || is_grandfathered r.
 
+(* ... and it is recorded only if its path has a key (valid UTF-8; repair of D55: the update
+   skips the result with a warning) *)
+Definition records (r : result) : bool := violating r && has_key r.
+
 Definition update_step (mode : umode) (nb : baseline) (r : result) : baseline :=
-  if negb (violating r) then nb
+  if negb (records r) then nb
   else
     let k := key_of r in
     let is_s := is_structure r in
